@@ -441,6 +441,29 @@ def run(ctx: Ctx) -> int:
         ok = flag == [("sub_defaults.get()", False)] and any("is None" in t and pol for t, pol in atoms) and any("is_subclass_spec" in t and pol for t, pol in atoms)
         ctx.oblige("C05.j", ok, s_, "without a previous value the class of the default spec is the base of an init_args-only value, except while sub-defaults are expanded" if ok else f"the default's class is taken as previous value under {sorted(atoms)}: with the sub_defaults flag tested the wrong way round, `init_args`-only values resolve to the annotated base class through parse_string / parse_path / environment and to the default's class through argv / --cfg / parse_object", fn=ct5)
 
+    # ---------------- C05.k: which nargs hold ONE value ----------------------------------------------------------------
+    # _check_value_key applies a plain `type` function to the value as a whole for nargs None, "?" and 0, and item by
+    # item otherwise - argparse (the argv channel) hands the function the single string in exactly those cases
+    cvk5 = ctx.func("_core:ArgumentParser._check_value_key")
+    nargs_tests = [t for t in ast.walk(cvk5) if isinstance(t, ast.Compare) and "nargs" in ast.unparse(t.left) and len(t.ops) == 1 and isinstance(t.ops[0], (ast.In, ast.Eq, ast.Is))]
+    consts = set()
+    for t in nargs_tests:
+        for x in ast.walk(t.comparators[0]):
+            if isinstance(x, ast.Constant):
+                consts.add(x.value)
+    scalar_sites = [b for b in ast.walk(cvk5) if isinstance(b, ast.BoolOp) and isinstance(b.op, ast.Or) and sum(1 for v in b.values if isinstance(v, ast.Compare) and "nargs" in ast.unparse(v.left)) >= 1]
+    if scalar_sites:
+        got_ = set()
+        for v in scalar_sites[0].values:
+            if isinstance(v, ast.Compare) and "nargs" in ast.unparse(v.left):
+                for x in ast.walk(v.comparators[0]):
+                    if isinstance(x, ast.Constant):
+                        got_.add(x.value)
+        ok = {None, "?", 0} <= got_
+        ctx.oblige("C05.k", ok, scalar_sites[0], "nargs None, '?' and 0 are the single-value cases for a plain type function" if ok else f"the single-value cases of _check_value_key are {sorted(map(repr, got_))}: for nargs='?' argparse passes the string as a whole to the type function, config / environment / object values are split and converted item by item - 'My Model' gives one value from argv and a list of characters from a config", fn=cvk5, construct="scalar nargs")
+    else:
+        ctx.need(False, "_check_value_key: `action.nargs in {None, '?'} or action.nargs == 0`")
+
     return ctx.finish(
         explanation=(
             "The channels (argparse actions, namespace application, environment loading) are different code that must funnel into one checker: every store of an action's value derives from "
